@@ -12,7 +12,7 @@ import subprocess
 import sys
 from concurrent.futures import ThreadPoolExecutor
 
-from harness.lib import (CORPUS, GEN, REPO, VERIF, Finding, PropertyCheck, TranslateError, coq_eval, cq_bytes,
+from harness.lib import (CASES, CORPUS, GEN, REPO, VERIF, Finding, PropertyCheck, TranslateError, coq_eval, cq_bytes,
                          cq_list, cq_Z, parse_nat_list, scratch_dir)
 from harness.props import c16_values as cv
 from translate import astutil, tr_valuehash
@@ -249,6 +249,8 @@ def run_nat_cases(tag, requires, terms, chunk=150, workers=4):
                 + PREAMBLE + "Eval vm_compute in ([\n  " + ";\n  ".join(shards[k]) + "\n] : list nat).\n")
         ok, out = coq_eval(requires, body, f"{tag}_{k}", timeout=900)
         lst = parse_nat_list(out) if ok else None
+        if lst is not None:             # keep the case file only when something went wrong
+            (CASES / f"{tag}_{k}.v").unlink(missing_ok=True)
         return lst, out
 
     with ThreadPoolExecutor(max_workers=workers) as ex:
@@ -442,8 +444,8 @@ class Check(PropertyCheck):
         sj = json.dumps(spec)[:240]
         if raises:
             return (f"raise-inconsistent:{sj}", f"get_hash raises in some processes/orders only: {distinct[:4]}")
-        if self.variant != "shipped":
-            return (f"unstable:{self.variant}:{sj}", f"{len(distinct)} different hashes for one value")
+        if self.variant == "fixed":
+            return (f"unstable:fixed:{sj}", f"{len(distinct)} different hashes for one value (repaired variant)")
         if in_class_iter(spec):
             return (K_ITER, "value containing a set/frozenset below the top-level Set.get_hash hashes differently "
                             "across PYTHONHASHSEED / insertion order")
